@@ -20,10 +20,10 @@ import (
 )
 
 type vfReqKind struct {
-	text      string
-	refused   int  // expected status if refused by the proxy itself (0 = passes the checks)
-	connect   bool // CONNECT that passes the checks: one dial attempt
-	symbolic  bool
+	text     string
+	refused  int  // expected status if refused by the proxy itself (0 = passes the checks)
+	connect  bool // CONNECT that passes the checks: one dial attempt
+	symbolic bool
 }
 
 func vfPipeRequest(i int) vfReqKind {
